@@ -127,6 +127,8 @@ static Verdict check_c12 (const J &plan)
 	static const std::map<std::string, std::string> owned = { { "data.model", "audio" }, { "frames.range", "audio.frames" }, { "read.short_not_eof", "audio.frames" }, { "open.fail#read", "reopen.fail" }, { "open.fail#read_empty", "reopen.fail" } } ;
 	add_owned (v, "C12", r, owned) ;
 	if (!v.findings.empty ()) return v ;
+	memory_differential (v, "C12", plan, r) ;
+	if (!v.findings.empty ()) return v ;
 	// expected values: last successful set before the audio
 	std::map<int, std::string> str ;
 	std::map<int, std::vector<std::string>> str_alt ;		// values also acceptable: a late set may be honoured or ignored
@@ -297,6 +299,7 @@ static Verdict check_c13 (const J &plan)
 	v.shape = plan_shape (plan) ;
 	static const std::map<std::string, std::string> owned = { { "data.model", "audio" }, { "frames.range", "audio" }, { "read.short_not_eof", "audio" }, { "open.fail#read", "reopen.fail" }, { "inv", "inv" }, { "chunk.iter_endless", "walk.endless" } } ;
 	add_owned (v, "C13", r, owned) ;
+	if (v.findings.empty ()) memory_differential (v, "C13", plan, r) ;
 	uint64_t key = (uint64_t) plan.geti ("seed") ;
 	// chunks stored: set before the audio and accepted
 	struct Ck { std::string id ; int64_t len, stream ; } ;
